@@ -52,6 +52,9 @@ func NewCBCHMAC(key []byte, newBlockCipher func([]byte) (cipher.Block, error)) (
 		hash = sha512.New384
 	case 32:
 		hash = sha512.New
+	default:
+		// The key comes from the message, for example an unwrapped key of 31 bytes.
+		return nil, errors.New("square/go-jose: invalid key size for CBC+HMAC")
 	}
 
 	return &cbcAEAD{
